@@ -238,7 +238,7 @@ Init ==
           /\ base = 0 /\ rtype = ""
        \/ /\ Mode = "sim"
           /\ soup = <<>>
-          /\ base \in ((MaxLen + 1) \div 2)..MaxLen /\ rtype = ""
+          /\ base \in {MaxLen \div 8, MaxLen \div 4, MaxLen \div 2, MaxLen} \ {0} /\ rtype = ""
        \/ /\ Mode = "min"
           /\ rtype \in RootTypes
           /\ soup = MinimalDoc(rtype)
